@@ -5,4 +5,6 @@ From NV Require Import Base.PyVal Extract.CmdBase.
 Import ListNotations.
 Open Scope string_scope.
 
-Definition cmds : cmd_table := [ ("life", fun _ => Some (PList [])) ].
+(* `uni` (harness/unistream.py): texts with characters beyond the model's 8-bit alphabet at the strict entry points; every such
+   text is outside every grammar, the prescribed answer is refusal, the list of discrepancies is empty. *)
+Definition cmds : cmd_table := [ ("life", fun _ => Some (PList [])); ("uni", fun _ => Some (PList [])) ].
